@@ -38,6 +38,12 @@ class AstToSqlAlchemyCoreVisitor(common._CommonVisitors, visitor.NodeVisitor):
         left = self.visit(node.left)
         right = self.visit(node.right)
         op = self.visit(node.comparator)
+
+        if isinstance(node.left, ast.Null) and isinstance(
+            node.comparator, (ast.Eq, ast.NotEq)
+        ):
+            # `null eq x`: only `x == null()` is rendered as `x IS NULL`
+            left, right = right, left
         return op(left, right)
 
     def visit_CollectionLambda(self, node: ast.CollectionLambda) -> ClauseElement:
